@@ -5,6 +5,7 @@ package main
 
 import (
 	"fmt"
+	"go/types"
 
 	"golang.org/x/tools/go/ssa"
 )
@@ -30,6 +31,10 @@ func checkC19(c *Ctx, r *Report) {
 	// R19.5: the frame shown to BeforeParse is the concatenation of all chunks shown to
 	// AfterEachRead only if every Read's count is added to the total before the loop can exit
 	clientLoopItems(c, r, "R7.2", "R19.5", "the frame handed on is a copy of received[0:total]", "advances by exactly the count")
+	// R19.6: hooks given in a ClientConfig reach the client: every exported constructor taking a
+	// configuration hands its Hooks on unchanged to the function applying it
+	cfgPassThrough(c, r, "R19.6", func(f *types.Var) bool { return types.IsInterface(f.Type()) })
+	r.floor("R19.6", 3)
 	r.assumption("hook bodies are user code: they are assumed to return and not to modify the slices they are handed")
 }
 
